@@ -16,10 +16,16 @@ def run(rep, tier, seed):
     rep.assumptions += [
         "element-tree route: the fold step update_args is proved for a symbolic child against the spec step (order check, duplicate check, value routing, unknown tags); that the whole fold equals the iterated step is functools.reduce's definition (T-LIB)",
         "keyword route: proved per class for all 2^n presence patterns of the non-list attributes; list members and leftover keyword arguments by the L1 contracts of _apply_args/_apply_residual_kwargs",
-        "limits of enumerations, string lengths and integer digits are the C10 converter contracts (this check relies on them through the abstract converter)",
+        "limits of enumerations, string lengths and integer digits: the converter contracts (refusal of every violating value, acceptance at the limit) are discharged here too",
+        "before anything is checked every worker reads the derived class-level mappings of all model classes, base classes first (vlib.common.adversarial_warmup): constraints must not depend on which classes were used earlier",
         "class-specific validate_args overrides are executed and may refuse more than the generic constraints; nothing further is claimed about their own rules",
     ]
     run_contracts(rep, "contracts.aggregate", tier, seed)
     run_contracts(rep, "contracts.aggregate_native", tier, seed)      # bounded companions on real classes / trees
     run_class_init(rep, tier, seed)
+    # element-level constraints (enumerations, string lengths, integer digits, required): the converters refuse every
+    # violating value and accept values exactly at the limit - both routes go through Element.__set__ -> convert
+    must = lambda c: any(mode == "must" for _, _, mode in c.raises) or any(i in ("value", "kept-whole", "passthrough") for i, _ in c.ensures)
+    for m in ("contracts.types_basic", "contracts.types_decimal"):
+        run_contracts(rep, m, tier, seed, select=must, accept_props=["C10", "C11"])
     replay_known_findings(rep)
